@@ -19,6 +19,7 @@ elements are hashable, like dictionary keys, which are never touched either.  `o
 for every other object (None, floats, …), treated as an immutable atom.
 -/
 import AutomataVerif.Model.Basic
+import AutomataVerif.Generated.ObjectProtocol
 
 namespace AV.VA
 open AV
@@ -145,11 +146,40 @@ structure Inst where
   attrs : List (String × PyVal)
   deriving Repr
 
-/-- `Automaton.__setattr__`: raises unconditionally. -/
-def Inst.setattr (_o : Inst) (_name : String) (_v : PyVal) : Res Inst := .error (.py .attributeError)
+/-- What the source says about an attribute hook (`__setattr__` / `__delattr__`) of the automaton
+classes, read from the regenerated table `AV.Gen.Object.attrHooks` (every definition of the hook
+in `Automaton` or a class deriving from it, with the shape of its body). -/
+inductive HookShape
+  /-- defined by `Automaton` only, and its body is the single statement `raise AttributeError(...)` -/
+  | raisesAttributeError
+  /-- defined nowhere: `object.__setattr__` / `object.__delattr__` apply -/
+  | inherited
+  /-- anything else (a conditional raise, extra statements, an override in a subclass, …) -/
+  | unknown
+  deriving DecidableEq, Repr
 
-/-- `Automaton.__delattr__`: raises unconditionally. -/
-def Inst.delattr (_o : Inst) (_name : String) : Res Inst := .error (.py .attributeError)
+def hookShape (hook : String) : HookShape :=
+  match Gen.Object.attrHooks.filter (fun t => t.2.1 == hook) with
+  | [] => .inherited
+  | [(cls, _, shape)] =>
+    if cls == "Automaton" && shape == "raise AttributeError" then .raisesAttributeError else .unknown
+  | _ => .unknown
+
+/-- `obj.name = v`.  `Automaton.__setattr__` as the source has it: when (and only when) the
+regenerated shape of the hook is "the body is `raise AttributeError(...)`, no subclass overrides
+it", the assignment raises for every object, name and value.  In every other case the model
+makes no claim of protection: the attribute is rebound, as `object.__setattr__` would. -/
+def Inst.setattr (o : Inst) (name : String) (v : PyVal) : Res Inst :=
+  match hookShape "__setattr__" with
+  | .raisesAttributeError => .error (.py .attributeError)
+  | _ => .ok { o with attrs := ainsert name v o.attrs }
+
+/-- `del obj.name`; `Automaton.__delattr__`, read from the source in the same way. -/
+def Inst.delattr (o : Inst) (name : String) : Res Inst :=
+  match hookShape "__delattr__" with
+  | .raisesAttributeError => .error (.py .attributeError)
+  | _ => if ahas name o.attrs then .ok { o with attrs := o.attrs.filter (fun kv => kv.1 != name) }
+         else .error (.py .attributeError)
 
 /-- `Automaton.__init__(**kwargs)` storing loop: freeze unless `allow_mutable_automata`. -/
 def storeKwargs (allowMutable : Bool) (kwargs : List (String × PyVal)) : List (String × PyVal) :=
